@@ -40,14 +40,19 @@ def gen(rng, tier):
     return cases
 
 
-TECHNIQUE = "Lean 4 invariant over the Run/Stop part of the lock-protocol LTS (Stop enabled at every point, any number of Stops/Runs) + scheduled real executions"
+TECHNIQUE = ("Lean 4 invariant over the Run/Stop part of the lock-protocol LTS (Stop enabled at every point, any number of Stops/Runs) + scheduled real "
+             "executions; the run-time oracle (Spec/C04.lean, monitor stepC) is proved to accept every trace of the model")
 LEVEL_TEXT = ("Machine-checked over the LTS of C04 extended with Run/Stop: a completed Stop makes the pipe readable for a Run that is "
               "before or in its poll (the poll cannot block), with the flag set the loop test can only leave (no further step), Run leaves "
               "only by reading the flag as set and clears it (runnable again), the flag is raised only by Stop, a Stop issued while no Run "
               "is in progress persists until the next Run consumes it (stop_not_lost, stop_before_run_returns); Stop from a task/handler/"
               "signal handler is a transition enabled at every driver pc. The shipped Run (flag cleared on entry, F1) is refuted by an "
               "explicit path. Tied to /repo by scheduled executions in which thread start order and every sync point are schedule choices; "
-              "each trace must be a path of the model and must end with Run returned.")
+              "each trace must be a path of the model and must end with Run returned. The direct checks on the trace (Run begins at most one "
+              "further step after a Stop() had returned, Run does not return without a Stop, no execution ends inside a Run after a Stop) are the "
+              "monitor stepC of Spec/C04.lean (shared with C04/C05; the driver only parses lines); theorem C08.spec_holds_on_model "
+              "(= Locks.Spec.model_satisfies_spec in mode C08, no hypothesis) proves that it accepts every trace of the model for every history: "
+              "any number of Stops from any thread, from tasks/handlers/signal handlers (dStop at any driver pc), successive Runs, manual Steps.")
 LEVEL_NOTE = ("Trusted: as C04. 'after at most the step in progress' is the theorem stop_at_most_one_step (along every execution fragment "
               "with the flag up, Run begins at most one step) together with stop_wakes_run (that step's poll cannot block); it is also "
               "checked directly on traces. That the step itself terminates depends on user handlers/tasks returning.")
